@@ -20,7 +20,7 @@ ORACLE_DOC = ('the protocol monitor (twin of Rx.wfStep, cross-checked against th
 KNOWN_MATCHERS = {}
 
 
-def cases(tier, rng):
+def _cases(tier, rng):
     yield {'kind': 'mux', 'term': [['group_by', ['mod', 2], [['filter', ['lt', 0]], ['roll', 3, 2, [['to_list']]]]]], 'items': [1, 2, 3, 4]}
     yield {'kind': 'mux', 'term': [['roll', 5, 2, [['split', ['mod', 2], [['count', True]]]]], ['count', True]], 'items': []}
     yield {'kind': 'mux', 'term': [['roll', 2, 5, [['tee', 'zip', [[['count', False]], [['last']]]]]]], 'items': list(range(12))}
@@ -50,7 +50,7 @@ def cases(tier, rng):
             yield {'kind': 'mux', 'term': term, 'items': muxgen.gen_items(rng, kind='mono' if mono else 'int')}
 
 
-def oracle(case, r):
+def _oracle(case, r):
     if 'harness_exc' in r:
         return 'real code raised: ' + r['harness_exc']
     if r.get('raised'):
@@ -85,3 +85,14 @@ def violation_class(case, text):
         if k in text:
             return k
     return text[:50]
+
+
+def cases(tier, rng):
+    """every case of `_cases`, and for a fraction of the mux/plain ones the same case run as the SECOND subscription of
+    its pipeline object (after an earlier subscription that completed, failed or was disposed)"""
+    pr = rng.sub('resubscription')
+    return muxprop.with_preludes(_cases(tier, rng), pr)
+
+
+def oracle(case, r):
+    return muxprop.prelude_violation(case, r) or _oracle(case, r)
